@@ -44,6 +44,14 @@ def showJson (r : Py.M (List (Str × Py.J))) : String :=
   | .error _ => "EXC"
   | .ok o => ",".intercalate (o.map (fun (k, v) => String.ofList k ++ "=" ++ showJ v))
 
+def showScores2 : Py.M (List (Option Rat)) → String
+  | .error _ => "EXC"
+  | .ok xs => " ".intercalate (xs.map showORat)
+
+def showScores3 : Py.M (List Rat) → String
+  | .error _ => "EXC"
+  | .ok xs => " ".intercalate (xs.map showRat)
+
 def excName : Py.Exc → String
   | .malformed => "MalformedError" | .mandatory => "MandatoryError" | .rhMalformed => "RHMalformedError"
   | .rhMismatch => "RHScoreDoesNotMatch" | .keyError => "KeyError" | .typeError => "TypeError"
@@ -65,7 +73,7 @@ def handle (line : String) : String :=
       | .ok m =>
         match Code2.init_tail (Code2.initSelf str m) str with
         | .error _ => "exc"
-        | .ok o => s!"ok\t{showORat o.base_score} {showORat o.temporal_score} {showORat o.environmental_score}\t{showOStr (Code2.clean_vector o)}\t{showOList (Code2.severities o)}\t{showOStr (Code2.temporal_vector o)}\t{showOStr (Code2.environmental_vector o)}\t{showJson (Code2.as_json o false false)};{showJson (Code2.as_json o false true)};{showJson (Code2.as_json o true false)};{showJson (Code2.as_json o true true)}"
+        | .ok o => s!"ok\t{showORat o.base_score} {showORat o.temporal_score} {showORat o.environmental_score}\t{showOStr (Code2.clean_vector o)}\t{showOList (Code2.severities o)}\t{showOStr (Code2.temporal_vector o)}\t{showOStr (Code2.environmental_vector o)}\t{showJson (Code2.as_json o false false)};{showJson (Code2.as_json o false true)};{showJson (Code2.as_json o true false)};{showJson (Code2.as_json o true true)}\t{showScores2 (Code2.scores o)}"
   | ["3", s] =>
     match decodeStr s with
     | none => "bad-op"
@@ -76,7 +84,7 @@ def handle (line : String) : String :=
         match Code3.init_tail { Code3.initSelf str m with minor_version := some (i : Int) } str with
         | .error _ => "exc"
         | .ok o =>
-          s!"ok\t{showORat o.base_score} {showORat o.temporal_score} {showORat o.environmental_score}\t{showMap o.metrics}\t{match o.original_metrics with | some x => showMap x | none => "None"}\t{showOStr (Code3.clean_vector o true)}\t{showOStr (Code3.clean_vector o false)}\t{showOList (Code3.severities o)}\t{showOStr (Code3.temporal_vector o)}\t{showOStr (Code3.environmental_vector o)}\t{showJson (Code3.as_json o false false)};{showJson (Code3.as_json o false true)};{showJson (Code3.as_json o true false)};{showJson (Code3.as_json o true true)}"
+          s!"ok\t{showORat o.base_score} {showORat o.temporal_score} {showORat o.environmental_score}\t{showMap o.metrics}\t{match o.original_metrics with | some x => showMap x | none => "None"}\t{showOStr (Code3.clean_vector o true)}\t{showOStr (Code3.clean_vector o false)}\t{showOList (Code3.severities o)}\t{showOStr (Code3.temporal_vector o)}\t{showOStr (Code3.environmental_vector o)}\t{showJson (Code3.as_json o false false)};{showJson (Code3.as_json o false true)};{showJson (Code3.as_json o true false)};{showJson (Code3.as_json o true true)}\t{showScores3 (Code3.scores o)}"
   | ["4", s] =>
     match decodeStr s with
     | none => "bad-op"
